@@ -167,7 +167,9 @@ impl HBox {
             list,
             ..Default::default()
         };
-        let mut total_glue = common::Glue::default();
+        // Totals per order of infinity (normal, fil, fill, filll), as in TeX.2021.650.
+        let mut total_stretch = [common::Scaled::ZERO; 4];
+        let mut total_shrink = [common::Scaled::ZERO; 4];
         let mut natural_width = common::Scaled::ZERO;
         for elem in &hbox.list {
             // TeX.2021.658
@@ -218,35 +220,8 @@ impl HBox {
                 }
                 H::Glue(glue) => {
                     // TeX.2021.656
-                    use std::cmp::Ordering::*;
-                    match total_glue.shrink_order.cmp(&glue.value.shrink_order) {
-                        Less => {
-                            total_glue.shrink = glue.value.shrink;
-                            total_glue.shrink_order = glue.value.shrink_order;
-                        }
-                        Equal => {
-                            total_glue.shrink += glue.value.shrink;
-                        }
-                        Greater => {
-                            // Do nothing.
-                            // This glue has smaller order than some other glue in the box, so will
-                            // not be used for shrinking.
-                        }
-                    }
-                    match total_glue.stretch_order.cmp(&glue.value.stretch_order) {
-                        Less => {
-                            total_glue.stretch = glue.value.stretch;
-                            total_glue.stretch_order = glue.value.stretch_order;
-                        }
-                        Equal => {
-                            total_glue.stretch += glue.value.stretch;
-                        }
-                        Greater => {
-                            // Do nothing.
-                            // This glue has smaller order than some other glue in the box, so will
-                            // not be used for stretching.
-                        }
-                    }
+                    total_stretch[glue.value.stretch_order as usize] += glue.value.stretch;
+                    total_shrink[glue.value.shrink_order as usize] += glue.value.shrink;
                     // TODO: implement leader support.
                     [glue.value.width, common::Scaled::ZERO, common::Scaled::ZERO]
                 }
@@ -271,18 +246,29 @@ impl HBox {
             PackWidth::Additional(additional) => natural_width + additional,
         };
         let excess = hbox.width - natural_width;
+        // TeX.2021.659 and TeX.2021.665: the glue order is the highest order of
+        // infinity whose total is non-zero.
+        let dominant = |totals: &[common::Scaled; 4]| -> (common::Scaled, GlueOrder) {
+            for order in [GlueOrder::Filll, GlueOrder::Fill, GlueOrder::Fil] {
+                if totals[order as usize] != common::Scaled::ZERO {
+                    return (totals[order as usize], order);
+                }
+            }
+            (totals[GlueOrder::Normal as usize], GlueOrder::Normal)
+        };
         use std::cmp::Ordering::*;
         match excess.cmp(&common::Scaled::ZERO) {
             Less => {
                 // TeX.2021.664
-                hbox.glue_order = total_glue.shrink_order;
-                if total_glue.shrink_order == GlueOrder::Normal && total_glue.shrink < -excess {
+                let (shrink, shrink_order) = dominant(&total_shrink);
+                hbox.glue_order = shrink_order;
+                if shrink_order == GlueOrder::Normal && shrink < -excess {
                     // The box is overfull: the glue shrinks by exactly its
                     // shrinkability (TeX sets the glue ratio to unity) and
                     // the content overflows the box.
                     // TODO(TeX.2021.666): report the overfull box and append
                     // the \overfullrule rule.
-                    if total_glue.shrink == common::Scaled::ZERO {
+                    if shrink == common::Scaled::ZERO {
                         // It doesn't look like this case exists in Knuth, but it does, subtly.
                         // The key thing is that in the `[total_shrink]==0` branch, Knuth sets the
                         // glue_sign to be normal (i.e., not shrinking or stretching, so zero). This
@@ -300,10 +286,10 @@ impl HBox {
                             den: common::Scaled::ONE,
                         };
                     }
-                } else if total_glue.shrink != common::Scaled::ZERO {
+                } else if shrink != common::Scaled::ZERO {
                     hbox.glue_ratio = GlueRatio {
                         num: excess,
-                        den: total_glue.shrink,
+                        den: shrink,
                     };
                 } else {
                     hbox.glue_ratio = GlueRatio {
@@ -317,14 +303,15 @@ impl HBox {
             }
             Greater => {
                 // TeX.2021.658
-                if total_glue.stretch != common::Scaled::ZERO {
-                    hbox.glue_order = total_glue.stretch_order;
+                let (stretch, stretch_order) = dominant(&total_stretch);
+                if stretch != common::Scaled::ZERO {
+                    hbox.glue_order = stretch_order;
                     hbox.glue_ratio = GlueRatio {
                         num: excess,
-                        den: total_glue.stretch,
+                        den: stretch,
                     };
                 }
-                if total_glue.stretch_order == GlueOrder::Normal {
+                if stretch_order == GlueOrder::Normal {
                     // TODO(TeX.2021.660): report an underfull box
                 }
             }
